@@ -200,6 +200,11 @@ func (rn *runner) boundarySweep() {
 	dupMeta := func() *N {
 		return Obj("points", Arr(Obj("id", Str(g.uuid()), "vector", g.vec(4), "metadata", Obj("a", Int(1)), "metadata", Null())))
 	}
+	// ---- a forged array32 / map32 header inside an interface typed position: 2^32-1 / 6*10^8 announced elements
+	for _, hdr := range []string{"\xdd\xff\xff\xff\xff", "\xdd\x24\x31\x65\x30", "\xdf\xff\xff\xff\xff"} {
+		rn.sweepReq("v2Insert", "v2", "alice", "BASIC", "POST", "base1", "/points", Obj("points", Arr(Obj("_id", Str(g.uuid()), "x", RawMP(hdr)))), true, "msgpack.huge-length-header")
+		rn.sweepReq("v1Insert", "v1", "alice", "BASIC", "POST", "v1col", "/points", Obj("points", Arr(Obj("id", Str(g.uuid()), "vector", g.vec(4), "metadata", RawMP(hdr)))), true, "msgpack.huge-length-header")
+	}
 	rn.sweepReq("v1Insert", "v1", "alice", "BASIC", "POST", "v1col", "/points", dupMeta(), true, "msgpack.duplicate-interface-key")
 	rn.sweepReq("v1Update", "v1", "alice", "BASIC", "PUT", "v1col", "/points", dupMeta(), true, "msgpack.duplicate-interface-key")
 	// ---- search
